@@ -17,6 +17,7 @@ import (
 	"io"
 	"sort"
 	"testing"
+	"time"
 
 	chunker "github.com/ipfs/boxo/chunker"
 	uio "github.com/ipfs/boxo/ipld/unixfs/io"
@@ -418,7 +419,7 @@ var spec = kit.Spec[Case]{
 	Prop: "C09", Name: "main",
 	Rule:  "file built by balanced/trickle importers (chunk 1..64, width 2..8 or 174, raw/pb leaves, v0/v1/inline-identity CIDs; single-node files; 1/4 passed through a DagModifier of the same width: seek+write/truncate steps), then <=30 ops Read/CtxReadFull/Seek(3 whences + bad whence, targets in [-2,size+2] weighted to leaf boundaries +-1, raw offsets in [-size-2,size+2])/WriteTo vs a bytes.Reader model; non-trivial = a Seek lands strictly inside a leaf after a partial read of a leaf, or WriteTo directly follows a read that ended inside a leaf",
 	Quick: 6000, Thorough: 20000,
-	Gen: gen, Run: run,
+	Gen: gen, Run: run, HangTimeout: 120 * time.Second,
 	Sample: func(c Case) any {
 		if len(c.Ops) > 12 {
 			c.Ops = c.Ops[:12]
